@@ -36,7 +36,7 @@ THM_RULES = ['assume', 'implies_intr', 'implies_elim', 'reflexive', 'symmetric',
 C01_TARGETS = ['kernel.thm.Thm.' + r for r in THM_RULES] + [
     'kernel.thm.Thm.check_thm_type', 'kernel.thm.Thm.can_prove',
     'kernel.term.Term.occurs_var',
-]
+] + TERM_TARGETS     # the kernel.term / kernel.type functions the rules are built from carry the property too
 
 C05_TARGETS = [
     'kernel.term.Term.is_binary', 'kernel.term.Term.dest_binary', 'kernel.term.Term.is_nat_number',
@@ -78,6 +78,39 @@ PLANS = {
             "(pow_spec uninterpreted); math.gcd uninterpreted",
             "NOT covered here: real_norm_macro (util/poly.py normaliser) and integral.inequality."
             "ConstInequalityMacro (Python floats: outside the model)",
+        ],
+        trusted_base=['pyvc (this repository)', 'z3 5.1'],
+    ),
+    'C02': dict(
+        specs=KERNEL_SPECS + ['spec.ids'], contracts=KERNEL_CONTRACTS + ['contracts.kernel_proof'],
+        targets=['kernel.proof.ItemID.can_depend_on', 'kernel.proof.ItemID.__eq__', 'kernel.thm.Thm.can_prove',
+                 'lemma:dep_irreflexive', 'lemma:dep_block_open', 'lemma:dep_before', 'lemma:dep_transitive'],
+        bounded=['bounded.c02_checker.run'], level='proof',
+        assumptions=COMMON_ASSUMPTIONS + [
+            "deductive part: the dependency rule (can_depend_on) admits exactly earlier siblings of ancestors-or-self, "
+            "which lie strictly earlier in the checker's depth-first order and never inside a closed block; "
+            "can_prove = same conclusion and hypotheses subset",
+            "checker-level statement (check_proof / _check_proof_item / checked_extend: every cited step was itself "
+            "checked, stated sequents no stronger than derived, gaps, extensions) is covered ONLY by the bounded "
+            "stand-in bounded/c02_checker.py (exhaustive small proof objects + seeded mutations, truth-table oracle); "
+            "it is reported under coverage.bounded and not counted in obligations/discharged",
+        ],
+        trusted_base=['pyvc (this repository)', 'z3 5.1'],
+    ),
+    'C13': dict(
+        specs=KERNEL_SPECS + ['spec.ids'], contracts=KERNEL_CONTRACTS + ['contracts.kernel_proof'],
+        targets=['kernel.proof.ItemID.incr_id_after', 'kernel.proof.ItemID.decr_id', 'kernel.proof.ItemID.incr_id',
+                 'kernel.proof.ItemID.last', 'kernel.proof.ItemID.can_depend_on', 'kernel.proof.ItemID.__eq__',
+                 'lemma:incr_injective', 'lemma:incr_keeps_length', 'lemma:incr_preserves_dep',
+                 'lemma:decr_preserves_dep', 'lemma:decr_injective', 'lemma:dep_before'],
+        level='proof',
+        assumptions=COMMON_ASSUMPTIONS + [
+            "only the identifier arithmetic behind add_line_before / remove_line / replace_id is under contract "
+            "(renumbering = spec, injective, length preserving, preserves the dependency relation between surviving "
+            "lines); three of the renumbering lemmas are discharged by enumeration of all sequence lengths <= 4 "
+            "(reported as bounded_lemma_instances, not counted as proved)",
+            "NOT covered: the whole-state invariant of ProofState editing (re-check succeeds, export/import, copy "
+            "isolation) - needs a heap model of Proof/ProofItem objects",
         ],
         trusted_base=['pyvc (this repository)', 'z3 5.1'],
     ),
